@@ -21,7 +21,7 @@ RULE = ("case = generated layout (depth <= 4, 10-25 entries incl. look-alikes an
         "directories (relative and absolute -c); then one sub-directory unreadable, TMPDIR on another file system, and (35 %) one "
         "sub-directory of the source tree as the mount point of another file system (other st_dev, EXDEV across it). Non-trivial = layout with at least one out-of-scope decoy carrying a missing "
         "reference and one in-scope file; distinct = case index.")
-PROBES = ["config_file_is_symlink", "files_older_than_lock", "fifo_named_rs", "hard_link_out_of_scope", "readdir_without_types", "mount_point_in_tree", "config_via_symlink", "exdev_run", "stem_siblings", "unreadable_subdir", "config_in_subdir", "symlink_to_file", "symlink_to_dir", "symlink_outside", "dir_named_rs", "lookalike_ext", "abs_source_dir", "cwd_outside",
+PROBES = ["interrupted_edit", "config_file_is_symlink", "files_older_than_lock", "fifo_named_rs", "hard_link_out_of_scope", "readdir_without_types", "mount_point_in_tree", "config_via_symlink", "exdev_run", "stem_siblings", "unreadable_subdir", "config_in_subdir", "symlink_to_file", "symlink_to_dir", "symlink_outside", "dir_named_rs", "lookalike_ext", "abs_source_dir", "cwd_outside",
           "cwd_root_abs", "empty_scope", "multi_ext", "hidden_rs", "nested_depth4"]
 ASSUMPTIONS = ["source_dir itself is a real directory (not a symlink)"]
 DEADLINE = {"quick": 200, "thorough": 3000}
@@ -406,6 +406,32 @@ def evaluate_linked_config_file(wm, seed, base, ctx):
     return viols
 
 
+def evaluate_interrupted(wm, seed, base, nth, signo, ctx):
+    """An edit run stopped by a signal right after its n-th rename: wherever the lock is written on that path, it is next to
+    the configuration file - and nothing else appears anywhere."""
+    scope = model_scope(wm, base)
+    if len(scope) < 2 or not world.cfg_uses_lock(wm["cfg"]):
+        return []
+    plan = {"seed": seed, "perm": True, "faults": [{"from": 1, "kinds": ["RENAME"], "pre": "tmp/", "nth": nth, "act": "sig_after", "signo": signo}]}
+    cfgname = wm.get("cfg_name", "Breadlog.yaml")
+    knobs = {"cwd": "outside", "config_arg": "abs", "threads": 2, "config_name": cfgname, "dt_unknown": bool(wm.get("dt_unknown"))}
+    run = scen.exec_run(wm, False, plan, knobs, ctx)
+    res = run["res"]
+    if res.mode != "exited" or not res.signals:
+        return []
+    ctx.probes["interrupted_edit"] += 1
+    lockpath = "proj/" + (cfgname.rsplit("/", 1)[0] + "/" if "/" in cfgname else "") + "Breadlog.lock"
+    bad = [(p, how) for p, how in core.diff_worlds(run["before"], run["after"], ignore=("tmp",))
+           if p not in scope and p != lockpath]
+    if bad:
+        dg = hashlib.sha256((res.trace_digest() + core.digest_world(run["after"])).encode()).hexdigest()
+        sym = "lock-in-wrong-place|interrupted" if any(p.rsplit("/", 1)[-1].startswith("Breadlog.lock") for p, _h in bad) else \
+            "out-of-scope-path-changed|interrupted"
+        return [{"signature": sym, "what": "edit stopped by signal %d after rename %d; afterwards %s" % (signo, nth, bad[:4]),
+                 "scenario": {"wm": world.wm_to_json(wm), "seed": seed, "base": base, "interrupt": [nth, signo]}, "digest": dg}]
+    return []
+
+
 def evaluate_exdev(wm, seed, base, ctx):
     """TMPDIR on another filesystem: every rename out of it fails with EXDEV.  Whatever the tool does about that (fail,
     or fall back to some other way of putting the content in place), out-of-scope paths stay untouched."""
@@ -437,6 +463,8 @@ def run_case(rng, idx, tier, ctx):
         viols += evaluate_unreadable_dir(wm, seed, base, rng.randrange(2, 7), ctx)
         viols += evaluate_exdev(wm, seed, base, ctx)
         viols += evaluate_linked_config_file(wm, seed, base, ctx)
+        if rng.random() < 0.3:
+            viols += evaluate_interrupted(wm, seed, base, rng.randrange(1, 3), rng.choice([2, 15]), ctx)
         if rng.random() < 0.35:
             viols += evaluate_mount(wm, seed, base, rng.randrange(1000), ctx)
     for t in tags:
@@ -459,6 +487,8 @@ def run_case(rng, idx, tier, ctx):
 
 def replay(scenario, ctx):
     wm = world.wm_from_json(scenario["wm"])
+    if scenario.get("interrupt"):
+        return evaluate_interrupted(wm, scenario["seed"], scenario["base"], scenario["interrupt"][0], scenario["interrupt"][1], ctx)
     if scenario.get("linked_config_file"):
         return evaluate_linked_config_file(wm, scenario["seed"], scenario["base"], ctx)
     if "mount_pick" in scenario:
